@@ -299,6 +299,9 @@ pub fn apply(f: &mut F, op: &str) -> String {
         }
         _ => {}
     }
+    if parts[0] == "xrun" {
+        return xrun(f, &parts);
+    }
     let cur = std::mem::replace(f, F::Gone);
     let r = catch_unwind(AssertUnwindSafe(move || -> (F, String) {
         match (cur, parts[0]) {
@@ -624,5 +627,130 @@ impl Rec {
     }
     pub fn state(&self) -> &'static str {
         self.f.name()
+    }
+}
+
+/// `xrun <payload hex> <stream hex> {m:cap:giveUp}`: the caller loop of the C01 composition theorems
+/// (Lean: `xStep` / `xRun` in Proofs/ExchangeAll.lean) run on the real `Flow` API, one schedule entry per
+/// step. Returns the summary the model prints for the same op.
+pub fn xrun(f: &mut F, parts: &[&str]) -> String {
+    let payload = unhex(parts[1]);
+    let stream = unhex(parts[2]);
+    let sched: Vec<(usize, usize, bool)> = parts[3..].iter().filter_map(|w| {
+        let p: Vec<&str> = w.split(':').collect();
+        if p.len() != 3 { return None; }
+        Some((p[0].parse().ok()?, p[1].parse().ok()?, p[2] == "1"))
+    }).collect();
+    let mut wire: Vec<u8> = vec![];
+    let mut off = 0usize;
+    let mut consumed = 0usize;
+    let mut head: Option<u16> = None;
+    let mut body: Vec<u8> = vec![];
+    let mut faults = 0usize;
+    let cur = std::mem::replace(f, F::Gone);
+    let r = catch_unwind(AssertUnwindSafe(move || -> (F, Vec<u8>, usize, usize, Option<u16>, Vec<u8>, usize) {
+        let mut cur = cur;
+        for (m, cap, give) in sched {
+            let window = |consumed: usize| -> &[u8] {
+                let a = consumed.min(stream.len());
+                let b = (a + m).min(stream.len());
+                &stream[a..b]
+            };
+            cur = match cur {
+                F::Prepare(fl) => F::SendRequest(fl.proceed()),
+                F::SendRequest(mut fl) => {
+                    let mut o = vec![0u8; cap];
+                    match fl.write(&mut o) {
+                        Ok(n) => {
+                            wire.extend_from_slice(&o[..n]);
+                            if fl.can_proceed() {
+                                match fl.proceed() {
+                                    Ok(Some(SendRequestResult::Await100(v))) => F::Await100(v),
+                                    Ok(Some(SendRequestResult::SendBody(v))) => F::SendBody(v),
+                                    Ok(Some(SendRequestResult::RecvResponse(v))) => F::RecvResponse(v),
+                                    _ => F::Gone,
+                                }
+                            } else { F::SendRequest(fl) }
+                        }
+                        Err(_) => F::SendRequest(fl),
+                    }
+                }
+                F::Await100(mut fl) => {
+                    if !fl.can_keep_await_100() || give {
+                        match fl.proceed() {
+                            Ok(Await100Result::SendBody(v)) => F::SendBody(v),
+                            Ok(Await100Result::RecvResponse(v)) => F::RecvResponse(v),
+                            Err(_) => F::Gone,
+                        }
+                    } else {
+                        match fl.try_read_100(window(consumed)) {
+                            Ok(n) => { consumed += n; }
+                            Err(_) => { faults += 1; }
+                        }
+                        F::Await100(fl)
+                    }
+                }
+                F::SendBody(mut fl) => {
+                    let a = off.min(payload.len());
+                    let b = (a + m + 1).min(payload.len());
+                    let mut o = vec![0u8; cap];
+                    match fl.write(&payload[a..b], &mut o) {
+                        Ok((i, n)) => {
+                            wire.extend_from_slice(&o[..n]);
+                            off += i;
+                            if fl.can_proceed() {
+                                match fl.proceed() { Some(v) => F::RecvResponse(v), None => F::Gone }
+                            } else { F::SendBody(fl) }
+                        }
+                        Err(_) => F::SendBody(fl),
+                    }
+                }
+                F::RecvResponse(mut fl) => {
+                    match fl.try_response(window(consumed)) {
+                        Ok((n, Some(resp))) => {
+                            consumed += n;
+                            head = Some(resp.status().as_u16());
+                            if fl.can_proceed() {
+                                match fl.proceed() {
+                                    Some(RecvResponseResult::RecvBody(v)) => F::RecvBody(v),
+                                    Some(RecvResponseResult::Redirect(v)) => F::Redirect(v),
+                                    Some(RecvResponseResult::Cleanup(v)) => F::Cleanup(v),
+                                    None => F::Gone,
+                                }
+                            } else { F::RecvResponse(fl) }
+                        }
+                        Ok((n, None)) => { consumed += n; F::RecvResponse(fl) }
+                        Err(_) => { faults += 1; F::RecvResponse(fl) }
+                    }
+                }
+                F::RecvBody(mut fl) => {
+                    let mut o = vec![0u8; cap];
+                    match fl.read(window(consumed), &mut o) {
+                        Ok((i, n)) => {
+                            consumed += i;
+                            body.extend_from_slice(&o[..n]);
+                            if fl.can_proceed() {
+                                match fl.proceed() {
+                                    Some(RecvBodyResult::Redirect(v)) => F::Redirect(v),
+                                    Some(RecvBodyResult::Cleanup(v)) => F::Cleanup(v),
+                                    None => F::Gone,
+                                }
+                            } else { F::RecvBody(fl) }
+                        }
+                        Err(_) => { faults += 1; F::RecvBody(fl) }
+                    }
+                }
+                other => other,
+            };
+        }
+        (cur, wire, off, consumed, head, body, faults)
+    }));
+    match r {
+        Ok((nf, wire, off, consumed, head, body, faults)) => {
+            *f = nf;
+            format!("xrun wire={} off={} consumed={} head={} body={} faults={}", hx_out(&wire), off, consumed,
+                head.map(|h| h.to_string()).unwrap_or("none".into()), hx_out(&body), faults)
+        }
+        Err(_) => { *f = F::Gone; "fault panic".into() }
     }
 }
